@@ -153,6 +153,15 @@ fn epoch_of_dir(dir: &str) -> u64 {
     e
 }
 
+thread_local! {
+    static SNAPSHOT_MSGS: std::cell::RefCell<Vec<u64>> = const { std::cell::RefCell::new(Vec::new()) };
+}
+
+/// simulated times (us) at which naming snapshot messages were sent in this run
+pub fn naming_snapshot_msg_times() -> Vec<u64> {
+    SNAPSHOT_MSGS.with(|v| v.borrow().clone())
+}
+
 fn payload_type(p: &Payload) -> String {
     p.metadata.as_ref().map(|m| m.r#type.clone()).unwrap_or_default()
 }
@@ -167,6 +176,15 @@ fn install_transport() {
                 return Err(anyhow::anyhow!("sim: sender is dead"));
             }
             let ptype = payload_type(&payload);
+            // naming sync messages: remember when full-state messages (snapshot pull answers / pushes) travel
+            if ptype == "NamingRouteRequest" {
+                if let Some(sub) = payload.metadata.as_ref().and_then(|m| m.headers.get("sub_name")) {
+                    if sub == "Snapshot" {
+                        SNAPSHOT_MSGS.with(|v| v.borrow_mut().push(sim::now_us()));
+                        sim::count("net.naming_snapshot_msgs", 1);
+                    }
+                }
+            }
             let bh = sim::fnv64(&payload.body.as_ref().map(|b| b.value.clone()).unwrap_or_default()) & 0xffff_ffff;
             // all random draws for this message up front
             let (target, blocked, lat1, lat2, drop_req, drop_resp, dup, timeout_ms, dst_id) = NET.with(|n| {
